@@ -3,7 +3,7 @@
 # Confirms a sub-agent's seeded change in a scratch worktree (builds, existing suite passes, demo fails with / passes without),
 # stores it under /verif/seeded/<PROP>-<X>/, then runs the property's check against it in /repo and records the outcome.
 P=$1; X=$2; TIER=${3:-quick}
-SRC=/tmp/wt-$P/SEEDED/$X
+SRC=${SEEDROOT:-/tmp/wt}-$P/SEEDED/$X; TAG=${SEEDTAG:-}
 [ -f $SRC/patch.diff ] || { echo "no $SRC/patch.diff"; exit 3; }
 export GOFLAGS=-mod=mod GOPROXY=off GOSUMDB=off GOTOOLCHAIN=local
 SW=/var/tmp/seedwt.$$
@@ -13,8 +13,14 @@ trap cleanup EXIT
 cd $SW
 git apply $SRC/patch.diff || { echo "RESULT $P-$X: patch does not apply"; exit 3; }
 go build ./... 2>&1 | head -3
-suite=$(go test -vet=off -count=1 ./... 2>&1 | grep -v "no test files")
-if echo "$suite" | grep -q "^FAIL\|--- FAIL"; then echo "RESULT $P-$X: existing suite FAILS with the change"; echo "$suite" | tail -5; exit 4; fi
+# the pinned suite has a known load-dependent flake (TestServer compares a shutdown error message,
+# ~1% on the pinned tree, more under load): accept the change if the suite passes in one of 4 runs
+ok=0
+for try in 1 2 3 4; do
+  suite=$(go test -vet=off -count=1 ./... 2>&1 | grep -v "no test files")
+  if ! echo "$suite" | grep -q "^FAIL\|--- FAIL"; then ok=1; break; fi
+done
+if [ $ok != 1 ]; then echo "RESULT $P-$X: existing suite FAILS with the change"; echo "$suite" | grep -B2 -A8 -- "--- FAIL" | head -30; exit 4; fi
 # place demos
 demos=$(ls $SRC/*_test.go 2>/dev/null)
 place() { for d in $demos; do pkg=$(grep -m1 '^package ' $d | awk '{print $2}'); case $pkg in p9p|p9p_test) dir=.;; ramfs|ramfs_test) dir=ramfs;; ufs|ufs_test) dir=ufs;; sleepfs|sleepfs_test) dir=sleepfs;; *) dir=.;; esac; cp $d $dir/zz_seeded_$(basename $d); echo $dir; done; }
@@ -25,27 +31,30 @@ without=0; for d in $dirs; do timeout 180 go test -tags seeddemo -vet=off -count
 echo "demo with change: $([ $with = 1 ] && echo FAILS || echo passes) ; without: $([ $without = 1 ] && echo FAILS || echo passes)"
 if [ $with != 1 ] || [ $without != 0 ]; then echo "RESULT $P-$X: demonstration not confirmed"; tail -5 /var/tmp/seed.$$.with /var/tmp/seed.$$.without; rm -f /var/tmp/seed.$$.*; exit 5; fi
 rm -f /var/tmp/seed.$$.*
-DST=/verif/seeded/$P-$X
+DST=/verif/seeded/$P-$TAG$X
 mkdir -p $DST; cp $SRC/patch.diff $DST/; cp $SRC/*_test.go $DST/ 2>/dev/null; cp $SRC/README.md $DST/README.md 2>/dev/null
 # now the check
 cd /repo && git diff --quiet || { echo "repo dirty"; exit 3; }
 git apply $SRC/patch.diff
 cd /verif
 cp evidence/$P.json /var/tmp/ev.$$.json 2>/dev/null
-start=$(date +%s); ./check $P --tier $TIER > /var/tmp/seedchk.$$.log 2>&1; rc=$?; end=$(date +%s)
+CK=${CHECK:-$P}
+cp evidence/$CK.json /var/tmp/ev2.$$.json 2>/dev/null
+start=$(date +%s); ./check $CK --tier $TIER > /var/tmp/seedchk.$$.log 2>&1; rc=$?; end=$(date +%s)
+mv /var/tmp/ev2.$$.json evidence/$CK.json 2>/dev/null
 mv /var/tmp/ev.$$.json evidence/$P.json 2>/dev/null
 git -C /repo checkout -- .
 detail=$(grep -m1 'violation detail' /var/tmp/seedchk.$$.log | cut -c1-400)
-echo "RESULT $P-$X: check $P ($TIER) rc=$rc in $((end-start))s $detail"
-python3 - "$DST" "$P" "$X" "$rc" "$TIER" "$((end-start))" "$detail" <<'PY'
+echo "RESULT $P-$X: check $CK ($TIER) rc=$rc in $((end-start))s $detail"
+python3 - "$DST" "$P" "$X" "$rc" "$TIER" "$((end-start))" "$detail" "$CK" <<'PY'
 import json,sys,os
-dst,p,x,rc,tier,secs,detail=sys.argv[1:8]
+dst,p,x,rc,tier,secs,detail,ck=sys.argv[1:9]
 meta={}
 if os.path.exists(dst+'/meta.json'): meta=json.load(open(dst+'/meta.json'))
 meta.update(property=p, variant=x, source="independent sub-agent given only the property text and a scratch worktree",
   confirmed=dict(builds=True, existing_suite_passes=True, demo_fails_with_change=True, demo_passes_without=True, how="seedtest.sh in a scratch worktree under /var/tmp"))
 runs=meta.setdefault('check_runs',[])
-runs.append(dict(check=p, tier=tier, exit_code=int(rc), seconds=int(secs), detail=detail.strip()))
+runs.append(dict(check=ck, tier=tier, exit_code=int(rc), seconds=int(secs), detail=detail.strip()))
 json.dump(meta,open(dst+'/meta.json','w'),indent=1)
 PY
 [ $rc -eq 2 ] && tail -8 /var/tmp/seedchk.$$.log
